@@ -52,6 +52,25 @@ fn check_aggregate<S: Subject>(plan: &Plan, ctx: &Ctx, stats: &mut Stats) -> Res
         }
     }
     classify_common(&sim, stats);
+    // a counter whose model value needs more than 64 bits at some replica (the reason reads are BigUint / BigInt)
+    if S::NAME.contains("Counter") {
+        let lim = BigInt::from(u64::MAX);
+        let mut beyond = false;
+        for r in 0..n {
+            let want = S::predict(&sim.metas, sim.reps[r].know).expect("model");
+            // per-side totals: a PNCounter can have P or N beyond 2^64 while the difference is small
+            let big = |c: &serde_json::Value| -> bool {
+                c.as_object().map(|m| m.values().filter_map(|v| v.as_u64().map(BigInt::from).or_else(|| v.as_str().and_then(|s| s.parse::<BigInt>().ok()))).sum::<BigInt>() > lim).unwrap_or(false)
+            };
+            let st = &want["state"];
+            if big(st) || big(&st["p"]) || big(&st["n"]) {
+                beyond = true;
+            }
+        }
+        if beyond {
+            stats.class("some replica's counter total (or P / N side) exceeds u64::MAX");
+        }
+    }
     if overtaken {
         stats.class("an op delivered before an earlier op of the same actor");
     }
@@ -87,7 +106,7 @@ pub fn property() -> Property {
     jobs.push(lww_flag_job(120000, 400_000));
     Property {
         id: "C11",
-        rule: "Plans of inc/dec/inc_many/dec_many (steps in {0,1,2,3,7,1000,65536,2^32,..}), register writes with model-issued unique markers / values incl. i64::MIN/MAX, GSet inserts, by 2-5 actors, delivered in ANY order (newest-first biased) with duplicates, merges and stale-snapshot merges; after every step the affected replica's read is compared with arithmetic over its knowledge set (GCounter = sum over actors of the largest running total known, also never decreasing along a replica's history; PNCounter = that for P minus that for N as BigInt; Max/Min = extreme of applied values and the initial 0; LWWReg = value of the greatest marker; GSet = union, contains consistent) and the full internal state tree is compared too; separate job: LWWReg validate_update/validate_op/validate_merge flag exactly equal-marker/different-value. Non-trivial = >=2 actors, an op delivered before an earlier op of the same actor, >=1 duplicate and >=1 merge; distinct = distinct Plan hash.".into(),
+        rule: "Plans of inc/dec/inc_many/dec_many (steps in {0,1,2,3,7,1000,65536,2^32,2^62,2^63,u64::MAX/3, fill-up; one actor's total kept below u64::MAX-2^40, sums over actors beyond 2^64}), register writes with model-issued unique markers / values incl. i64::MIN/MAX, GSet inserts, by 2-5 actors, delivered in ANY order (newest-first biased) with duplicates, merges and stale-snapshot merges; after every step the affected replica's read is compared with arithmetic over its knowledge set (GCounter = sum over actors of the largest running total known, also never decreasing along a replica's history; PNCounter = that for P minus that for N as BigInt; Max/Min = extreme of applied values and the initial 0; LWWReg = value of the greatest marker; GSet = union, contains consistent) and the full internal state tree is compared too; separate job: LWWReg validate_update/validate_op/validate_merge flag exactly equal-marker/different-value. Non-trivial = >=2 actors, an op delivered before an earlier op of the same actor, >=1 duplicate and >=1 merge; distinct = distinct Plan hash.".into(),
         assumptions: vec!["counter running totals stay far below u64::MAX (overflow of a running total is outside the documented domain)".into(), "LWWReg markers are unique per write (model-issued)".into()],
         jobs,
     }
